@@ -26,6 +26,8 @@ import (
 	"sync/atomic"
 	"time"
 
+	"golang.zx2c4.com/wireguard/conn"
+
 	"wgv/cosim"
 	"wgv/ref"
 	"wgv/sim"
@@ -53,6 +55,10 @@ type Cfg struct {
 	Huge      bool  `json:"huge"`          // all packets 1300..1400 bytes (Seal takes long)
 	// percentage of the traffic that goes to the peer that will be removed; the rest is spread over all peers
 	VictimShare int `json:"victim_share"`
+	// one in Forged inbound datagrams is preceded by a forged one (live receiver index, bad tag) for the same peer
+	Forged int `json:"forged_one_in"`
+	// dedicated run: this many isolated temporary receive errors, each followed by a small inbound batch (1/3 s each)
+	RecvErrs int `json:"recv_errs"`
 }
 
 type OLane struct {
@@ -108,7 +114,15 @@ func runCase(c Cfg) Case {
 		p.NextIdx = uint32(0x10000 * (i + 1))
 		peers = append(peers, p)
 	}
-	w, err := cosim.NewWorld(cosim.Config{Up: true, BindBatch: c.BindBatch, TunBatch: c.TunBatch}, true, peers...)
+	var fb *stress.FaultyBind
+	var w *cosim.World
+	var err error
+	if c.RecvErrs > 0 {
+		w, err = cosim.NewWorldWrapped(cosim.Config{Up: true, BindBatch: c.BindBatch, TunBatch: c.TunBatch}, true,
+			func(b *sim.Bind) conn.Bind { fb = stress.NewFaultyBind(b); return fb }, peers...)
+	} else {
+		w, err = cosim.NewWorld(cosim.Config{Up: true, BindBatch: c.BindBatch, TunBatch: c.TunBatch}, true, peers...)
+	}
 	if err != nil {
 		panic(err)
 	}
@@ -192,10 +206,20 @@ func runCase(c Cfg) Case {
 		cs.Out[pi].N++
 		outPlan = append(outPlan, item{pi, stress.Packet([4]byte{10, 9, 9, 9}, [4]byte{10, 0, byte(pi), 2}, pktLen2(r, c), uint64(pi), uint64(cs.Out[pi].N))})
 	}
+	nForged := 0
 	for k := 0; k < c.NIn; k++ {
 		pi := pick()
 		cs.In[pi].N++
 		inner := stress.Packet([4]byte{10, 0, byte(pi), 2}, [4]byte{10, 9, 9, 9}, pktLen2(r, c), uint64(pi), uint64(cs.In[pi].N))
+		if c.Forged > 0 && r.Intn(c.Forged) == 0 {
+			// a datagram with this peer's live receiver index that does not authenticate: it must produce no TUN
+			// write and must not disturb the genuine datagrams around it
+			sess := peers[pi].Session()
+			f := sess.Transport(sess.SendCtr+uint64(1<<20), ref.Pad(inner))
+			f[len(f)-1-r.Intn(16)] ^= 0x55
+			inPlan = append(inPlan, item{pi, f})
+			nForged++
+		}
 		inPlan = append(inPlan, item{pi, peers[pi].Session().Next(ref.Pad(inner))})
 	}
 
@@ -250,6 +274,32 @@ func runCase(c Cfg) Case {
 	}
 	t0 := time.Now()
 	var wg sync.WaitGroup
+	if c.RecvErrs > 0 {
+		// isolated temporary receive errors, each followed by ordinary traffic that must all arrive
+		per := len(inPlan)/(c.RecvErrs+1) + 1
+		for i, round := 0, 0; i < len(inPlan); round++ {
+			n := per
+			if i+n > len(inPlan) {
+				n = len(inPlan) - i
+			}
+			if round > 0 && round <= c.RecvErrs {
+				fb.Arm(1) // the receive call AFTER this batch returns the error; the routine sleeps 1/3 s
+			}
+			ds := make([]sim.Dgram, n)
+			for k := range ds {
+				ds[k] = sim.Dgram{From: peers[inPlan[i+k].peer].Addr, Data: inPlan[i+k].data}
+			}
+			w.Bind.Inject(ds...)
+			i += n
+			dl := time.Now().Add(3 * time.Second)
+			for !w.Bind.Idle() && time.Now().Before(dl) { // a dead receive routine leaves the batch untaken
+				time.Sleep(2 * time.Millisecond)
+			}
+			w.Settle()
+		}
+		info["recv_errors_returned"] = fb.Returned.Load()
+		inPlan, outPlan = nil, nil
+	}
 	wg.Add(2)
 	go func() {
 		defer wg.Done()
@@ -373,6 +423,7 @@ func runCase(c Cfg) Case {
 			l.Wr = append(l.Wr, [2]uint64{seq, 1})
 		}
 	}
+	info["forged"] = nForged
 	info["other"] = other
 	info["datagrams"] = len(sent)
 	info["written"] = len(written)
@@ -500,6 +551,9 @@ func genCfg(r *rand.Rand, i int, pkts int) Cfg {
 	if c.Procs > runtime.NumCPU() {
 		c.Procs = runtime.NumCPU()
 	}
+	if i%2 == 0 {
+		c.Forged = []int{4, 10, 40}[r.Intn(3)]
+	}
 	switch i % 6 {
 	case 1: // interface down/up with TUN traffic while down, then pipelined multi-peer batches
 		c.DownUp = true
@@ -587,9 +641,16 @@ func main() {
 			}
 		}
 		r := rand.New(rand.NewSource(*seed))
+		// dedicated real-time run (about 4.5 s, concurrently with the others): 12 isolated temporary receive errors
+		recvDone := make(chan Case, 1)
+		go func() {
+			recvDone <- isolated(Cfg{Seed: *seed + 4242, Peers: 2, BindBatch: 8, TunBatch: 8, Procs: runtime.NumCPU(), NIn: 78, ChunkMax: 8,
+				Forged: 10, RecvErrs: 12})
+		}()
 		for i := 0; i < *n; i++ {
 			cases = append(cases, isolated(genCfg(r, i, *pkts)))
 		}
+		cases = append(cases, <-recvDone)
 	}
 	if *shards > len(cases) {
 		*shards = len(cases)
